@@ -2954,6 +2954,12 @@ func (dsc *dataStoreCommand) setMove(source, destination, memberName string) (ou
 		return
 	}
 
+	if source == destination {
+		// moving a member onto its own set changes nothing
+		output.data = respInt(1)
+		return
+	}
+
 	added, wrongType := dsc.setAddWorkerUnlocked(destination, []string{memberName}, SET_NOT_EXIST)
 	if wrongType {
 		output.data = wrongTypeError
